@@ -115,6 +115,7 @@ POSITIONS = [
     ('P14f', 'file-argument', 'file-arg'),
     ('P16p', 'install-prefix', 'install-path'),
     ('P15c', 'env-CFLAGS', 'flags-var'), ('P15p', 'env-CPPFLAGS', 'flags-var'),
+    ('P15x', 'env-CFLAGS-shared-word', 'flags-var'),
     ('P15l', 'env-LDFLAGS', 'flags-var'), ('P15b', 'env-LDLIBS', 'flags-var'),
 ]
 POS = {p[0]: p for p in POSITIONS}
@@ -142,6 +143,29 @@ def strquote(s):
     return ''.join(out)
 
 
+_SH_SAFE = set('abcdefghijklmnopqrstuvwxyzABCDEFGHIJKLMNOPQRSTUVWXYZ'
+               '0123456789_-+./:=,@%^#')
+
+
+def strquote_min(s):
+    """As strquote(), but characters that neither sh nor a shlex-style
+    splitter treats specially inside a word stay unquoted (`#` is a comment
+    character only at the start of a word)."""
+    if s == '':
+        return "''"
+    out = []
+    for m in re.finditer(r"'+|[^']+", s):
+        t = m.group(0)
+        if t[0] == "'":
+            out.append('"' + t + '"')
+            continue
+        for n in re.finditer(r'[A-Za-z0-9_\-+./:=,@%^#]+|[^A-Za-z0-9_\-+./:=,@%^#]+', t):
+            u = n.group(0)
+            out.append(u if u[0] in _SH_SAFE else "'" + u + "'")
+    r = ''.join(out)
+    return r if r[0] != '#' else "'#'" + r[1:]
+
+
 def render(src, v, shape):
     """Write the project for the value table v."""
     r = repr
@@ -149,7 +173,7 @@ def render(src, v, shape):
         "project('argdeliv', version='1.0')",
         "global_options([{}], lang='c')".format(r('-DG10A=' + v['P10a'])),
         "global_options({}, lang='c')".format(
-            r(strquote('-DG10S=' + v['P10s']))),
+            r(strquote_min('-DG10S=' + v['P10s']))),
         # the same word in a global and in a per-target list
         "global_options(['-Xpreprocessor', {}], lang='c')".format(
             r('-DG10X=' + v['P10x'])),
@@ -177,8 +201,8 @@ def render(src, v, shape):
         "vprog2 = executable('prog2', ['main2.c'], compile_options={}, "
         "link_options={})".format(
             r(strquote('-DC8A=' + v['P8a']) + ' ' +
-              strquote('-DC8B=' + v['P8b'])),
-            r(strquote('-Wl,--l9s=' + v['P9s']))),
+              strquote_min('-DC8B=' + v['P8b'])),
+            r(strquote_min('-Wl,--l9s=' + v['P9s']))),
         "command('p1', cmd=['rec', 'P1', {}, {}, {}])".format(
             r(v['P1a']), r(v['P1b']), r(v['P1c'])),
         "command('p2', cmds=[['rec', 'P2x', {}], ['rec', 'P2y', {}, {}]])"
@@ -215,7 +239,9 @@ def configure_env(v):
     return {
         'CC': 'cc', 'YACC': 'yacc',
         'YFLAGS': strquote('-DE15Y=' + v['P15y']),
-        'CFLAGS': strquote('-DE15C=' + v['P15c']),
+        # (the word -Xpreprocessor is also given by global_options())
+        'CFLAGS': strquote('-DE15C=' + v['P15c']) + ' -Xpreprocessor ' +
+        strquote('-DE15X=' + v['P15x']),
         'CPPFLAGS': strquote('-DE15P=' + v['P15p']),
         'LDFLAGS': strquote('-Wl,--e15l=' + v['P15l']),
         'LDLIBS': strquote('-le15b' + v['P15b']),
@@ -451,7 +477,7 @@ def literal_model_check(values, logs):
 
 
 # which option positions belong to which compile/link step (by output)
-GLOBAL_COMPILE = {'P10a', 'P10s', 'P10x', 'P15c', 'P15p'}
+GLOBAL_COMPILE = {'P10a', 'P10s', 'P10x', 'P15c', 'P15p', 'P15x'}
 GLOBAL_LINK = {'P11a', 'P11s', 'P15l', 'P15b'}
 OWNERS = {
     'prog.int/main.o': GLOBAL_COMPILE | {'P7a', 'P7b', 'P7x', 'P12v', 'P13i'},
@@ -473,10 +499,10 @@ LINK_LIBS = {'prog': {'./libslib.a', './libshl.so'}, 'prog2': set(),
              'libshl.so': set(), 'iprog': set(), 'libvshl.so.1.2.3': set()}
 # literal option words the script gives to a step, with multiplicity (the
 # same word may be given globally and per target: both must arrive)
-WORDS = {out: {'-Xpreprocessor': 1} for out in
+WORDS = {out: {'-Xpreprocessor': 2} for out in
          ('prog2.int/main2.o', 'libslib.int/lib.o', 'libshl.int/shl.o',
           'iprog.int/main2.o', 'libvshl.int/vshl.o')}
-WORDS['prog.int/main.o'] = {'-Xpreprocessor': 2}
+WORDS['prog.int/main.o'] = {'-Xpreprocessor': 3}
 WORDS['./gram.tab.c'] = {'--defines=gram.tab.h': 1}
 
 
